@@ -10,7 +10,7 @@ from collections import OrderedDict
 
 from ipv8.messaging.interfaces.udp.endpoint import UDPv4Address, UDPv6Address
 from ipv8.peer import Peer
-from ipv8.peerdiscovery.network import Network
+from ipv8.peerdiscovery.network import Network, PeerObserver
 
 from .. import core, fixtures
 
@@ -111,9 +111,48 @@ class RefGraph:
 # the explored world
 # ------------------------------------------------------------------------------------------------
 
+class ObserverError(Exception):
+    """What a misbehaving application observer raises."""
+
+
+class Observer(PeerObserver):
+    """
+    An application's peer observer (Network.peer_observers), one of the configured kinds:
+      quiet    does nothing
+      raise    raises from on_peer_removed (a buggy application callback; the caller of the operation sees the error)
+      reenter  on removal of peer p verifies peer p+1 at its home address from inside the callback, and asks the graph
+               for the removed peer by key
+    """
+
+    def __init__(self, model: "Model", net: Network, mode: str) -> None:
+        self.model, self.net, self.mode = model, net, mode
+        self.reentered: list[int] = []
+        self.saw_removed_by_key: list[int] = []
+
+    def on_peer_added(self, peer) -> None:  # noqa: ANN001
+        pass
+
+    def on_peer_removed(self, peer) -> None:  # noqa: ANN001
+        m = self.model
+        p = m.pidx(peer)
+        if self.mode == "raise":
+            raise ObserverError(p)
+        if self.mode == "reenter":
+            if self.net.get_verified_by_public_key_bin(m.keys[p]) is peer:    # (a re-verified twin is another instance)
+                self.saw_removed_by_key.append(p)
+            q = (p + 1) % m.n_peers
+            if q != p:
+                self.reentered.append(q)
+                self.net.add_verified_peer(m.mkpeer(q, m.home(q)))
+
+
 class World:
     def __init__(self, m: "Model") -> None:
         self.net = Network()
+        self.obs = None
+        if m.observer is not None:
+            self.obs = Observer(m, self.net, m.observer)
+            self.net.peer_observers.add(self.obs)
         self.net.reverse_ip_cache_size = 2
         self.net.reverse_intro_cache_size = 2
         self.net.reverse_service_cache_size = 1
@@ -123,8 +162,10 @@ class World:
 
 
 class Model(core.BfsModel):
-    def __init__(self, n_peers: int, n_addrs: int, n_services: int, seed: int, bl_addrs=(), bl_peers=()) -> None:  # noqa: ANN001
+    def __init__(self, n_peers: int, n_addrs: int, n_services: int, seed: int, bl_addrs=(), bl_peers=(),  # noqa: ANN001
+                 observer: str | None = None) -> None:
         self.n_peers, self.n_addrs, self.n_services, self.seed = n_peers, n_addrs, n_services, seed
+        self.observer = observer
         self.bl_addrs, self.bl_peers = tuple(bl_addrs), tuple(bl_peers)
         self.keys = [fixtures.public_bin(i) for i in fixtures.rotate(seed, n_peers)]
         self.key_index = {k: i for i, k in enumerate(self.keys)}
@@ -147,7 +188,8 @@ class Model(core.BfsModel):
 
     def params(self) -> dict:
         return {"peers": self.n_peers, "addresses": self.n_addrs, "services": self.n_services, "seed": self.seed,
-                "blacklisted_addresses": list(self.bl_addrs), "blacklisted_peers": list(self.bl_peers)}
+                "blacklisted_addresses": list(self.bl_addrs), "blacklisted_peers": list(self.bl_peers),
+                "observer": self.observer}
 
     # helpers --------------------------------------------------------------------------------
     def home(self, p: int) -> int:
@@ -167,6 +209,25 @@ class Model(core.BfsModel):
         return World(self)
 
     def apply(self, w: World, ev):  # noqa: ANN001, ANN201
+        if w.obs is None:
+            return self._apply(w, ev)
+        # with an application observer: the caller survives the observer's error; what the observer did from inside its
+        # callback (verify another peer) is applied to the reference after the operation that triggered it
+        del w.obs.reentered[:]
+        del w.obs.saw_removed_by_key[:]
+        w.pending_ref = None
+        try:
+            out = self._apply(w, ev)
+        except ObserverError:
+            out = None
+            if w.pending_ref is not None:       # the reference applies the operation in full
+                w.pending_ref()
+        for q in w.obs.reentered:
+            h = self.home(q)
+            w.ref.add_verified(q, {w.ref.cls(h): h})
+        return out
+
+    def _apply(self, w: World, ev):  # noqa: ANN001, ANN201
         net, ref = w.net, w.ref
         kind = ev[0]
         if kind == "add":
@@ -193,10 +254,14 @@ class Model(core.BfsModel):
             # the library removes the instance it got from get_peers(); fall back to a fresh one
             inst = next((x for x in net.verified_peers if self.pidx(x) == p), None) or self.mkpeer(p, self.home(p))
             addrs = {type(v).__name__: self.aidx(v) for v in inst.addresses.values()}
+            w.pending_ref = lambda: ref.remove_peer(p, addrs)
             net.remove_peer(inst)
+            w.pending_ref = None
             ref.remove_peer(p, addrs)
         elif kind == "rma":
+            w.pending_ref = lambda: ref.remove_by_address(ev[1])
             net.remove_by_address(ADDRS[ev[1]])
+            w.pending_ref = None
             ref.remove_by_address(ev[1])
         elif kind == "q_addr":
             r = net.get_verified_by_address(ADDRS[ev[1]])
@@ -287,6 +352,9 @@ class Model(core.BfsModel):
         elif last == "q_walk" and set(obs) != ref.walkable(ev[1]):
             bad("walkable" + ("" if ev[1] is None else "(service)"), obs, sorted(ref.walkable(ev[1])))
 
+        if w.obs is not None and w.obs.saw_removed_by_key:
+            v.append((f"removed-peer-still-found-by-key-in-callback|after:{last}",
+                      f"on_peer_removed for peers {w.obs.saw_removed_by_key}: lookup by key still returned the peer"))
         first = self._ask_all(net)
         # membership itself
         if first[("members",)] != frozenset(ref.verified):
@@ -359,12 +427,20 @@ def configs(ctx: core.Ctx) -> list[tuple[Model, int]]:
             (Model(2, 2, 1, ctx.seed, bl_peers=(0,)), 5),
             (Model(3, 3, 1, ctx.seed, bl_addrs=(2,), bl_peers=(1,)), 4),
             (Model(2, 3, 1, ctx.seed, bl_addrs=(0,)), 5),
+            (Model(2, 2, 1, ctx.seed, observer="raise"), 5),
+            (Model(3, 2, 1, ctx.seed, observer="raise"), 4),
+            (Model(2, 2, 1, ctx.seed, observer="reenter"), 5),
+            (Model(3, 2, 1, ctx.seed, observer="reenter"), 4),
+            (Model(2, 2, 1, ctx.seed, observer="quiet"), 4),
         ]
     return [
         (Model(2, 2, 1, ctx.seed), 5),
         (Model(3, 3, 2, ctx.seed), 3),
         (Model(2, 2, 1, ctx.seed, bl_addrs=(0,), bl_peers=(1,)), 4),
         (Model(2, 3, 1, ctx.seed, bl_addrs=(0,)), 3),
+        (Model(2, 2, 1, ctx.seed, observer="raise"), 4),
+        (Model(2, 2, 1, ctx.seed, observer="reenter"), 4),
+        (Model(3, 2, 1, ctx.seed, observer="reenter"), 3),
     ]
 
 
@@ -402,7 +478,8 @@ def run(ctx: core.Ctx) -> core.Report:
 
 def replay(ctx: core.Ctx, data: dict) -> list:
     w = data["world"]
-    m = Model(w["peers"], w["addresses"], w["services"], w["seed"], w["blacklisted_addresses"], w["blacklisted_peers"])
+    m = Model(w["peers"], w["addresses"], w["services"], w["seed"], w["blacklisted_addresses"], w["blacklisted_peers"],
+              w.get("observer"))
     hist = [tuple(e) for e in data["history"]]
     world = m.initial()
     out = []
